@@ -224,7 +224,13 @@ class Ctx:
         lines = [l for l in out.splitlines() if l.startswith('RESULT ')]
         if rc != 0 or not lines:
             raise RuntimeError(f'harness {script} failed (rc={rc}):\n{out[-3000:]}')
-        return json.loads(lines[-1][7:])
+        res = json.loads(lines[-1][7:])
+        # a harness may evaluate parts of the property statement itself (e.g. independence of the call history)
+        # and hand the violations it saw to the driver
+        if isinstance(res, dict):
+            for v in res.get('harness_violations') or []:
+                self.violation(v['key'], v['what'], v.get('replay'))
+        return res
 
     # ---------------------------------------------------------------- Coq evaluation of cases
     def coq_eval_shards(self, header, case_terms, footer_fn, shard=400, prefix='cases', timeout=900):
